@@ -38,6 +38,18 @@ fn main() {
         }
         std::process::exit(0);
     }
+    if args[0] == "--crash-test" {
+        // self-test of the native-crash reporter: overflow the native stack while a case is registered
+        set_current_prop("C00");
+        install_crash_reporter("C00");
+        beat("(case \"quoted\" \\ backslash\nsecond line)");
+        fn dive(n: u64) -> u64 {
+            let pad = [n; 64];
+            if n == u64::MAX { 0 } else { dive(n + 1) + pad[(n % 64) as usize] }
+        }
+        println!("{}", dive(0));
+        std::process::exit(0);
+    }
     if args[0] == "--replay" {
         std::process::exit(replay::replay_file(args.get(1).map(|s| s.as_str()).unwrap_or("")));
     }
@@ -110,6 +122,9 @@ fn main() {
     let mk = |p: &'static str| Ctx { prop: p, tier, seed, start: Instant::now() };
     cap_memory(40);
     set_current_prop(&prop);
+    if prop != "C19" {
+        install_crash_reporter(&prop);
+    }
     let code = std::panic::catch_unwind(std::panic::AssertUnwindSafe(|| match prop.as_str() {
         "C01" => props::c01::run(&mk("C01")),
         "C02" => props::c02::run(&mk("C02")),
